@@ -184,8 +184,23 @@ func isPow2(x *big.Int) bool {
 }
 
 // nearEdge decodes the specification's value codes 100000 + 10 j + side (side 1: just below bin edge j, 2: just above).
+// farValue decodes the value codes 200001..200004: +1e300, +Inf, -1e300, -Inf.
+func farValue(x int64) (float64, bool) {
+	switch x {
+	case 200001:
+		return 1e300, true
+	case 200002:
+		return math.Inf(1), true
+	case 200003:
+		return -1e300, true
+	case 200004:
+		return math.Inf(-1), true
+	}
+	return 0, false
+}
+
 func nearEdge(x int64) (j int64, side float64, ok bool) {
-	if x < 100000 {
+	if x < 100000 || x >= 200000 {
 		return 0, 0, false
 	}
 	j, s := (x-100000)/10, (x-100000)%10
@@ -229,6 +244,9 @@ func histReplay(in io.Reader, raw bool, args []string) (*Summary, error) {
 			mn, mx := float64(sh.Min)/float64(sh.Unit), float64(sh.Max)/float64(sh.Unit)
 			h = stats.NewLinearHist(mn, mx, sh.NBins)
 			val = func(x int64) float64 {
+				if v, ok := farValue(x); ok {
+					return v
+				}
 				if j, side, ok := nearEdge(x); ok { // just below / above bin edge j: 1e-10 of a bin width away
 					bw := (mx - mn) / float64(sh.NBins)
 					return mn + (float64(j)+side*1e-10)*bw
@@ -245,6 +263,9 @@ func histReplay(in io.Reader, raw bool, args []string) (*Summary, error) {
 			mx := math.Pow(float64(sh.B), (float64(sh.NBins)-0.5)/float64(sh.M))
 			h = stats.NewLogHist(sh.B, float64(sh.M), mx)
 			val = func(x int64) float64 {
+				if v, ok := farValue(x); ok {
+					return v
+				}
 				if j, side, ok := nearEdge(x); ok { // edge b^(j/m) times (1 -+ 1e-10): clearly off the edge, far inside rounding reach of nothing
 					return math.Pow(float64(sh.B), float64(j)/float64(sh.M)) * (1 + side*1e-10)
 				}
